@@ -219,8 +219,18 @@ def generate(tier, seed):
         votes, mults, style = mixed_votes(rng, i, m, alts)
         add_bf(rand_perm(rng, alts), votes, mults, style=style)
 
-    # ---- brute force, m >= 6: the fixed set
-    out.extend(det_bf_cases(tier))
+    # ---- brute force, m >= 6: the fixed set, spread evenly over the (cheap) cases generated so far so that the oracle's
+    # request stream is balanced over its worker processes (the order of the cases has no other meaning)
+    det = det_bf_cases(tier)
+    step = max(1, len(out) // max(1, len(det)))
+    merged, j = [], 0
+    for i, c in enumerate(out):
+        merged.append(c)
+        if i % step == 0 and j < len(det):
+            merged.append(det[j])
+            j += 1
+    merged.extend(det[j:])
+    out[:] = merged
 
     # ---- approx with the reference optimum (m <= REF_MAX_M), seed-dependent
     nref = 900 if not thorough else 7000
